@@ -252,4 +252,26 @@ def run_case(case):
                 evals += 1
                 if isinstance(have, str) or not eq(conv(have), want, R):
                     fails.append(_fail("total_weight == sum over all accepting paths", dict(inp0, semiring=R.__name__), have, want))
+    # ---- signed rational weights with exact cancellation (parallel arcs / epsilon arcs summing to zero)
+    import itertools as _it
+
+    if 1 <= n:
+        k3 = min(3, sum(1 for o in ops if o[0] == "A"))
+        arc_idx = [i for i, o in enumerate(ops) if o[0] == "A"][:k3]
+        for wperm in sorted(set(_it.permutations([Fraction(1), Fraction(-1), Fraction(1, 2)][:k3]))):
+            SW = [Fraction(1)] * n
+            for i, w in zip(arc_idx, wperm):
+                SW[i] = w
+            try:
+                mfs = to_matrices(fsm.data(ops, SW))
+            except Diverges:
+                continue
+            mq = fsm.build(base.WFSA, Q, ops, [Q(w) for w in SW])
+            for x in strings_upto(alphabet, min(p["maxlen"], 3)):
+                have = _call(mq, x)
+                evals += 1
+                want = mat_weight(mfs, x)
+                if isinstance(have, str) or not isinstance(have, Q) or have.score != want:
+                    fails.append(_fail("m(x) == exact path sum (signed weights with cancellation)", dict(inp0, x=list(x), weights=[str(w) for w in SW]), have, want))
+                    break
     return {"evals": evals, "nontrivial": int(bool(tab)), "fails": fails, "counters": {"executions": evals, "rational_skipped_divergent": skipped}}
